@@ -8,7 +8,7 @@ from ..sessions import SessionSim
 PROP = 'C10'
 LEVEL = 'exploration'
 ORACLES = ['installed']
-RULE = ("one run = seeded universe (colliding ids across lexicons/versions at a per-run rate, extensions whose senses attach to base entries/synsets, several synsets per ILI, absent/proposed ILIs) + seeded history; after every op up to 4 sessions; per session: model image of word/sense/synset navigation fields (Sense.word/synset by id AND lexicon), inverse navigation, Word.synsets/Synset.words/lemmas as images of the sense lists, ==/hash laws over all objects reached by different routes, Synset.translate against the model's ILI table for 3 target selections, symmetry, Sense/Word.translate as images. distinct = event digests; non-trivial = at least one session was checked")
+RULE = ("one run = seeded universe (colliding ids across lexicons/versions at a per-run rate, extensions whose senses attach to base entries/synsets, several synsets per ILI, absent/proposed ILIs) + seeded history; after every op up to 4 sessions; per session: model image of word/sense/synset navigation fields (Sense.word/synset by id AND lexicon), inverse navigation, Word.synsets/Synset.words/lemmas as images of the sense lists, ==/hash laws over all objects reached by different routes, Synset.translate against the model's ILI table for 3 target selections, symmetry, Sense/Word.translate as images; entity objects carried into an interpreter with another hash seed (0.4% of the sessions); 0.2% of the runs use a base lexicon with 105/130 extensions installed side by side (default-mode navigation). distinct = event digests; non-trivial = at least one session was checked")
 SESSION_ORACLES = tuple('nav'.split(','))
 
 
@@ -42,7 +42,40 @@ def build(seed):
     return u, plan
 
 
+class ManyS(SessionSim):
+    """A base lexicon with more than a hundred extensions installed side by side: the
+    navigation laws in default mode (where a word's senses come from its whole family)."""
+    session_oracles = ()
+
+    def default_nav(self):
+        import random
+        rng = random.Random('%s:many' % self.seed)
+        self.session_oracles = ('nav',)
+        self.W.begin_op(budget=None)
+        try:
+            self.run_session({'expand': ''}, rng)
+            self.run_session({'lexicon': 'mb:1 mx:*', 'expand': ''}, rng)
+        finally:
+            self.W.end_op()
+            self.session_oracles = ()
+        self.probe('many-extensions')
+
+
+def run_many(seed):
+    u = U.generate_many_ext(subseed(seed, 'universe-many'))
+    plan = [{'op': 'add', 'res': r['name']} for r in u['resources']]
+    SessionSim.evals = 0
+    r = run_plan(PROP, seed, u, plan, [], ['default_nav'], sim_cls=ManyS)
+    r['evals'] = SessionSim.evals
+    r['nontrivial'] = r['evals'] > 0
+    r['sample'] = {'many_ext': u['profile']['many_ext']}
+    r['replay'] = {'many': True}
+    return r
+
+
 def run_one(seed, tier):
+    if subseed(seed, 'many').random() < 0.002:
+        return run_many(seed)
     u, plan = build(seed)
     SessionSim.evals = 0
     r = run_plan(PROP, seed, u, plan, ORACLES, sim_cls=S)
@@ -54,6 +87,8 @@ def run_one(seed, tier):
 
 
 def replay(obj):
+    if obj.get('many'):
+        return run_many(obj['seed'])
     return run_plan(PROP, obj['seed'], obj['universe'], obj['plan'], ORACLES, sim_cls=S)
 
 
